@@ -9,7 +9,7 @@ from __future__ import annotations
 
 WS = ("BlankNode", "CommentNode")
 UNTRACKED = ("ProgramNode", "BlankNode", "CommentNode", "InjectedNode", "NullNode")
-FINITE_CMDS = ("Short", "Long", "Set1", "Set2", "OvA", "OvB")
+FINITE_CMDS = ("Short", "Long", "Set1", "Set2", "OvA", "OvB", "OvC")
 
 
 class Tree:
